@@ -87,7 +87,7 @@ func VerifH_C13_GnetStream() {
 	c := &vGnetConn{}
 	_, act := e.OnOpen(c)
 	verifrt.Assert(act == 0, "connection admitted")
-	k := 2
+	k := 3 // three frames: with limit 1 the segment still holds a frame AFTER a refused one
 	var stream []byte
 	ids := []uint16{}
 	for i := 0; i < k; i++ {
